@@ -488,7 +488,11 @@ func main() {
 		if i == 0 {
 			res.Sample(map[string]interface{}{"schedule": r.replay()["ops"], "events": len(r.tr.Events), "physical_ops": len(r.tr.Ops)}, 2)
 		}
-		os.RemoveAll(filepath.Join(*dir, fmt.Sprintf("s%d", i)))
+		if os.Getenv("VERIF_KEEPBAD") == "" {
+			os.RemoveAll(filepath.Join(*dir, fmt.Sprintf("s%d", i)))
+		} else {
+			os.RemoveAll(root)
+		}
 	}
 	out.Close()
 	res.Distinct = res.Evaluations
